@@ -23,11 +23,12 @@ type c09Cfg struct {
 	useKind int     // 0 plain use of 'blk' (defines all names), 1 aliased use of 'blk2' (x as y) + block('y')
 	blockFn bool    // root's first block also prints block(<second name>)
 	nested  bool    // every child-level definition holds a nested block of its own before calling parent()
+	pform   int     // how parent() is written: 0 once, 1 twice, 2 inside a 2-iteration loop, 3 after a block() call of the block itself
 }
 
 func c09Decode(n []int) c09Cfg {
 	// n = [L, nNames, layout, pref, useLvl, useKind, blockFn, opts...]
-	c := c09Cfg{L: n[0], layout: n[2], pref: n[3], useLvl: n[4], useKind: n[5], blockFn: n[6]&1 == 1, nested: n[6]&2 == 2}
+	c := c09Cfg{L: n[0], layout: n[2], pref: n[3], useLvl: n[4], useKind: n[5], blockFn: n[6]&1 == 1, nested: n[6]&2 == 2, pform: n[6] >> 2}
 	c.names = []string{"a", "b", "c", "d"}[:n[1]]
 	c.opt = make([][]int, c.L)
 	c.opt[0] = make([]int, len(c.names))
@@ -42,10 +43,19 @@ func c09Decode(n []int) c09Cfg {
 	return c
 }
 
-func c09Body(name string, level int, tpl string, withParent bool, extra string) string {
+func c09Body(name string, level int, tpl string, withParent bool, extra string, pform int) string {
 	s := "[" + name + itoa(level) + ":{{ name() }}" + extra
 	if withParent {
-		s += "^{{ parent() }}"
+		switch pform {
+		case 1:
+			s += "^{{ parent() }}~{{ parent() }}"
+		case 2:
+			s += "^{% for q in [1, 2] %}{{ parent() }}{% endfor %}"
+		case 3: // extra holds the block() call of another block, written in front of parent()
+			s += "^{{ parent() }}"
+		default:
+			s += "^{{ parent() }}"
+		}
 	}
 	return s + "]"
 }
@@ -56,7 +66,7 @@ func c09Templates(c c09Cfg) map[string]string {
 	var sb strings.Builder
 	sb.WriteString("R<")
 	blk := func(i int, extra string) string {
-		return "{% block " + c.names[i] + " %}" + c09Body(c.names[i], 0, "t0", false, extra) + "{% endblock %}"
+		return "{% block " + c.names[i] + " %}" + c09Body(c.names[i], 0, "t0", false, extra, 0) + "{% endblock %}"
 	}
 	first := ""
 	if c.blockFn && len(c.names) > 1 {
@@ -120,7 +130,10 @@ func c09Templates(c c09Cfg) map[string]string {
 			if c.nested {
 				extra += "{% if true %}{% block zz" + n + itoa(l) + " %}(z:{{ name() }}){% endblock %}{% endif %}"
 			}
-			s.WriteString("{% block " + n + " %}" + c09Body(n, l, "t"+itoa(l), c.opt[l][i] == 2, extra) + "{% endblock %}between")
+			if c.pform == 3 && i == 0 && len(c.names) > 1 && c.opt[l][i] == 2 {
+				extra += "%{{ block('" + c.names[1] + "') }}"
+			}
+			s.WriteString("{% block " + n + " %}" + c09Body(n, l, "t"+itoa(l), c.opt[l][i] == 2, extra, c.pform) + "{% endblock %}between")
 		}
 		t["t"+itoa(l)] = s.String()
 	}
@@ -184,8 +197,19 @@ func c09Expect(c c09Cfg) string {
 		if d.level > 0 && c.nested {
 			s += "(z:" + d.tpl + ")"
 		}
+		if d.parent && c.pform == 3 && ni == 0 && len(c.names) > 1 && d.level > 0 {
+			s += "%" + render(1, 0)
+		}
 		if d.parent {
-			s += "^" + render(ni, k+1)
+			p := render(ni, k+1)
+			switch c.pform {
+			case 1:
+				s += "^" + p + "~" + p
+			case 2:
+				s += "^" + p + p
+			default:
+				s += "^" + p
+			}
 		}
 		return s + "]"
 	}
@@ -255,7 +279,7 @@ func c09Run(c core.Case) core.Result {
 	return core.Okay(cfg.L > 1, out)
 }
 
-func c09Gen(maxL, nNames int, emit func(core.Case)) {
+func c09Gen(maxL, nNames, pforms int, emit func(core.Case)) {
 	for L := 1; L <= maxL; L++ {
 		nopt := (L - 1) * nNames
 		total := 1
@@ -280,8 +304,19 @@ func c09Gen(maxL, nNames int, emit func(core.Case)) {
 							kinds = 1
 						}
 						for uk := 0; uk < kinds; uk++ {
+							hasParent := false
+							for _, o := range opts {
+								if o == 2 {
+									hasParent = true
+								}
+							}
 							for bf := 0; bf < 4; bf++ {
-								emit(core.Case{Fam: "cfg", N: append([]int{L, nNames, layout, pref, useLvl, uk, bf}, opts...)})
+								for pf := 0; pf < pforms; pf++ {
+									if pf > 0 && !hasParent {
+										continue
+									}
+									emit(core.Case{Fam: "cfg", N: append([]int{L, nNames, layout, pref, useLvl, uk, bf | pf<<2}, opts...)})
+								}
 							}
 						}
 					}
@@ -293,13 +328,13 @@ func c09Gen(maxL, nNames int, emit func(core.Case)) {
 
 func c09Levels(tier string) []core.Level {
 	lv := []core.Level{
-		{Name: "chains of 1..4 templates x 2 block names x {absent, override, override+parent()} per level x 3 root layouts x 3 parent-reference forms x use (none / plain / aliased at every level) x block()", Gen: func(emit func(core.Case)) { c09Gen(4, 2, emit) }},
+		{Name: "chains of 1..4 templates x 2 block names x {absent, override, override+parent()} per level x 3 root layouts x 3 parent-reference forms x use (none / plain / aliased at every level) x block()", Gen: func(emit func(core.Case)) { c09Gen(4, 2, 4, emit) }},
 	}
 	if thorough(tier) {
-		lv = append(lv, core.Level{Name: "the same with 3 block names", Gen: func(emit func(core.Case)) { c09Gen(4, 3, emit) }})
-		lv = append(lv, core.Level{Name: "4 block names, chains of 1..2", Gen: func(emit func(core.Case)) { c09Gen(2, 4, emit) }})
+		lv = append(lv, core.Level{Name: "the same with 3 block names", Gen: func(emit func(core.Case)) { c09Gen(4, 3, 4, emit) }})
+		lv = append(lv, core.Level{Name: "4 block names, chains of 1..2", Gen: func(emit func(core.Case)) { c09Gen(2, 4, 4, emit) }})
 	} else {
-		lv = append(lv, core.Level{Name: "3 block names, chains of 1..3", Gen: func(emit func(core.Case)) { c09Gen(3, 3, emit) }})
+		lv = append(lv, core.Level{Name: "3 block names, chains of 1..3", Gen: func(emit func(core.Case)) { c09Gen(3, 3, 2, emit) }})
 	}
 	return lv
 }
@@ -308,7 +343,7 @@ func init() {
 	core.Register(&core.Check{
 		ID:       "C09",
 		Category: "exploration",
-		Rule: "bounded-exhaustive inheritance configurations: chain length 1..4, 2 block names (3 up to length 3; thorough: 3 names to length 4, 4 names to length 2), each (level, name) absent / overriding / overriding and calling parent(), root defining all; root layout flat / second block nested in the first / first block inside a 2-iteration loop; parent named by literal, variable or concatenation; a use tag at any extending level, plain (block set ranking between own and ancestors' blocks) or aliased with block('y'); block(name) in the root; optionally a nested block of its own inside every child-level definition, before its parent() call; text outside blocks in every child; every block prints Context.Name(). " +
+		Rule: "bounded-exhaustive inheritance configurations: chain length 1..4, 2 block names (3 up to length 3; thorough: 3 names to length 4, 4 names to length 2), each (level, name) absent / overriding / overriding and calling parent(), root defining all; root layout flat / second block nested in the first / first block inside a 2-iteration loop; parent named by literal, variable or concatenation; a use tag at any extending level, plain (block set ranking between own and ancestors' blocks) or aliased with block('y'); block(name) in the root; optionally a nested block of its own inside every child-level definition, before its parent() call; parent() written once, twice, inside a 2-iteration loop or directly after a block() call of another block; text outside blocks in every child; every block prints Context.Name(). " +
 			"Reference: textbook resolution (most-derived definition; parent() = next definition in the order child, used, ancestors; name() = defining template). distinct = distinct configuration; non-trivial = chain length > 1",
 		Assumptions: []string{"a non-extending template with use is not claimed", "used templates define plain blocks (no parent() inside used blocks)"},
 		Levels:      c09Levels,
